@@ -14,3 +14,5 @@ import RasnModel.Driver.C04
 import RasnModel.Props.C15
 import RasnModel.Props.C07
 import RasnModel.Driver.C07
+import RasnModel.Props.C17
+import RasnModel.Driver.C17
